@@ -300,6 +300,23 @@ func TestAutoSnapshot(t *testing.T) {
 		}
 		defer s.Close()
 		n := int(threshold) + extra
+		var before int64
+		if chunks == 0 {
+			// variant: a manual snapshot shortly before the threshold is reached; the automatic one must still
+			// follow within the bound (it is due one interval after the writes have accumulated, whatever
+			// happened before)
+			s.Do("SET", "pre", "v")
+			time.Sleep(2 * time.Millisecond)
+			s.Do("SAVE")
+			for w := 0; w < 200 && lastSave(s) == 0; w++ {
+				time.Sleep(5 * time.Millisecond)
+			}
+			before = lastSave(s)
+			if before == 0 {
+				return true, "" // the manual snapshot did not complete in time: says nothing about the automatic one
+			}
+			time.Sleep(3 * time.Millisecond)
+		}
 		for i := 0; i < n; i++ {
 			if chunks > 1 && i > 0 && i%((n+chunks-1)/chunks) == 0 {
 				time.Sleep(interval + interval/2)
@@ -314,7 +331,7 @@ func TestAutoSnapshot(t *testing.T) {
 		}
 		deadline := time.Now().Add(20 * interval)
 		for time.Now().Before(deadline.Add(2 * time.Second)) {
-			if lastSave(s) != 0 {
+			if lastSave(s) != before {
 				// the snapshot must restore
 				time.Sleep(20 * time.Millisecond)
 				if _, err := os.Stat(filepath.Join(root, "snapshots", "manifest.bin")); err != nil {
@@ -324,13 +341,13 @@ func TestAutoSnapshot(t *testing.T) {
 			}
 			time.Sleep(interval / 5)
 		}
-		return false, fmt.Sprintf("no automatic snapshot within 20 intervals after %d writes in %d group(s) (threshold %d, interval %s)", n, chunks, threshold, interval)
+		return false, fmt.Sprintf("no automatic snapshot within 20 intervals after %d writes in %d group(s) (0 = right after a manual SAVE) (threshold %d, interval %s)", n, chunks, threshold, interval)
 	}
 	for _, th := range []uint64{1, 3, 10} {
 		for _, iv := range []time.Duration{50 * time.Millisecond, 200 * time.Millisecond} {
 			for _, extra := range []int{0, 2} {
-				for _, chunks := range []int{1, 2, 3} {
-					if chunks > 1 && (int(th) < chunks || extra != 0) {
+				for _, chunks := range []int{1, 2, 3, 0} {
+					if chunks != 1 && (int(th) < chunks || extra != 0) {
 						continue
 					}
 					ok, msg := attempt(th, iv, extra, chunks)
